@@ -651,6 +651,7 @@ var fsCallTable = map[string]fsClass{
 	"golang.org/x/sys/unix.Major": fsNeutral, "golang.org/x/sys/unix.Minor": fsNeutral,
 	"golang.org/x/sys/unix.CopyFileRange": fsNeutral, "golang.org/x/sys/unix.Mkfifo": fsNoFollow,
 	"github.com/containerd/continuity/fs.RootPath": fsNeutral,
+	"syscall.UTF16PtrFromString":                   fsNeutral, "syscall.UTF16FromString": fsNeutral, "golang.org/x/sys/windows.UTF16PtrFromString": fsNeutral,
 	"golang.org/x/sys/unix.Clonefile":              fsNoFollow, "golang.org/x/sys/unix.Fclonefileat": fsNoFollow,
 }
 
